@@ -503,6 +503,27 @@ func main() {
 					return func() []byte { return refmodel.XOR(d.Bytes(), [4]byte{7, 8, 9, 10}, 0) }, err
 				}},
 			}
+			// (the side is one bit of the state; a connection with a negotiated extension, or a writer
+			// told that a fragmented message is open, carries further bits next to it)
+			for _, extra := range []ws.State{ws.StateExtended, ws.StateFragmented, ws.StateExtended | ws.StateFragmented} {
+				extra := extra
+				cases = append(cases,
+					wcase{fmt.Sprintf("WriteMessage/client-state-with-bits-%08b", extra), func(p []byte, d *env.Dst) (func() []byte, error) {
+						err := wsutil.WriteMessage(d, ws.StateClientSide|extra, ws.OpBinary, p)
+						return func() []byte { return unmaskAll(d) }, err
+					}},
+					wcase{fmt.Sprintf("Writer.WriteThrough/client-state-with-bits-%08b", extra), func(p []byte, d *env.Dst) (func() []byte, error) {
+						w := wsutil.NewWriterSize(d, ws.StateClientSide|extra, ws.OpBinary, 64)
+						_, err := w.WriteThrough(p)
+						return func() []byte { w.Flush(); return unmaskAll(d) }, err
+					}},
+					wcase{fmt.Sprintf("Writer.Write-larger-than-buffer/client-state-with-bits-%08b", extra), func(p []byte, d *env.Dst) (func() []byte, error) {
+						w := wsutil.NewWriterSize(d, ws.StateClientSide|extra, ws.OpBinary, 16)
+						_, err := w.Write(p)
+						return func() []byte { w.Flush(); return unmaskAll(d) }, err
+					}},
+				)
+			}
 			for _, client := range []bool{true, false} {
 				client := client
 				st := ws.StateServerSide
